@@ -113,7 +113,7 @@ class Engine:
     def base_axioms(self):
         v = z3.Const("v!q", Val)
         ax = [
-            z3.ForAll([v], kn(kn(v)) == kn(v), patterns=[kn(v)]),
+            z3.ForAll([v], kn(kn(v)) == kn(v), patterns=[kn(kn(v))]),
             z3.ForAll([v], z3.Implies(z3.Or(is_none(v), is_str(v), is_cls(v), is_int(v), is_absent(v)),
                                       kn(v) == v), patterns=[kn(v)]),
             z3.ForAll([v], z3.Implies(is_ref(v), is_ref(kn(v))), patterns=[kn(v)]),
@@ -122,6 +122,10 @@ class Engine:
                                       kn(v) == z3.If(z3.IsInt(r_of(v)), vint(z3.ToInt(r_of(v))), v)),
                       patterns=[kn(v)]),
         ]
+        from .models import IT_N, IT_ARR
+        jq = z3.Int("j!q")
+        t = z3.Select(IT_ARR(v), jq)
+        ax.append(z3.ForAll([v, jq], z3.Implies(z3.Or(jq < 0, jq >= IT_N(v)), t == ABSENT), patterns=[t]))
         return ax + self.subcls_axioms() + self.axioms
 
     def solver(self, timeout=None, qf=False):
@@ -751,6 +755,8 @@ class Engine:
         pre.ghost["plans"] = pre.ghost.get("plans", ()) + ((label, plan),)
         # (1) invariant holds on entry
         i0 = z3.IntVal(0)
+        from .contracts import set_mode
+        set_mode("prove", pre)
         for nm, g in spec.inv(lc, pre, i0):
             self.oblige(pre, "%s.init.%s" % (label, nm), g, kind="loop-init")
         out = []
@@ -773,6 +779,7 @@ class Engine:
 
         # (2) arbitrary iteration
         h, mods = havoced()
+        set_mode("assume", h)
         i = fresh("it", I)
         h.assume(i >= 0)
         if plan is not None:
@@ -810,8 +817,10 @@ class Engine:
                 if r.kind in ("ok", "cnt"):
                     if getattr(spec, "ghost_step", None):
                         spec.ghost_step(lc, r.st, i)
+                    set_mode("prove", r.st)
                     for nm, g in spec.inv(lc, r.st, i + 1):
                         self.oblige(r.st, "%s.step.%s" % (label, nm), g, kind="loop-step")
+                    set_mode("assume", r.st)
                     if plan is None and spec.variant is not None:
                         self.oblige(r.st, "%s.variant" % label,
                                     z3.And(spec.variant(lc, r.st) < spec.variant(lc, q.st),
@@ -822,6 +831,7 @@ class Engine:
                     out.append(r)
         # (3) exit
         e, _ = havoced()
+        set_mode("assume", e)
         if plan is not None:
             n = plan.n
             for nm, g in spec.inv(lc, e, n):
